@@ -59,7 +59,7 @@ def showV {α : Type} : Res α → String
 
 def hypOf (d : Node) : String :=
   let ok := okAtB true d && d.meta.typ == typRoot
-  let safe := tarSafeB [] d.kids
+  let safe := tarRootOkB d.kids
   let alias := noAliasB d.kids
   let strm := sigsAreStreamsB d.kids
   s!"okat={if ok then 1 else 0} safe={if safe then 1 else 0} noalias={if alias then 1 else 0} strm={if strm then 1 else 0}"
